@@ -259,7 +259,7 @@ def C10(ctx):
         w = json.dumps(c['expect'][0]['wiring'], sort_keys=True)
         if byb.setdefault(b, w) != w:
             raise Broken('WireSem wiring differs between regroupings of base ' + b)
-    cases += ctx.export('FamilyX(p, {"same-name-packages", "two-fieldsof-items", "bind-after-concrete", "two-unnamed-values", "multi-name-var-sets", "same-named-sets-two-packages", "inline-set-partly-used", "inline-set-in-named-set", "sets-in-injector-file", "value-in-shared-set"})')
+    cases += ctx.export('FamilyX(p, {"same-name-packages", "two-fieldsof-items", "bind-after-concrete", "two-unnamed-values", "multi-name-var-sets", "same-named-sets-two-packages", "inline-set-partly-used", "inline-set-in-named-set", "sets-in-injector-file", "value-in-shared-set", "set-through-alias-only-path", "set-through-plain-alias-package", "bind-three-sets-deep"})')
     ctx.design_analyze(cases, limit=250 if ctx.quick else 1500, label='family M ')
     ctx.run(cases, nontrivial=lambda c: c['prog']['sets'] != [], runtime=True, switches=W_ONLY)
 
@@ -279,7 +279,7 @@ def C11(ctx):
     ctx.run(cases, runtime=True, switches=W_ONLY)
     ctx.rules.append('family X: binding an interface to an interface that lacks a method, an injector that returns one of several arguments through a binding without calling any provider, '
                      'two sets sharing their first import of which only one provides the bound type')
-    ctx.run(ctx.export('FamilyX(p, {"bind-iface-not-implementing", "arg-returned-through-bind", "arg-returned-directly", "shared-import-bind-lacks-concrete", "missing-behind-bind", "bind-to-field-type", "bind-after-concrete", "multi-name-var-sets-bind"})'), runtime=True, switches=W_ONLY)
+    ctx.run(ctx.export('FamilyX(p, {"bind-iface-not-implementing", "arg-returned-through-bind", "arg-returned-directly", "shared-import-bind-lacks-concrete", "missing-behind-bind", "bind-to-field-type", "bind-after-concrete", "multi-name-var-sets-bind", "bind-three-sets-deep"})'), runtime=True, switches=W_ONLY)
 
 
 # ------------------------------------------------------------------ C12
@@ -414,7 +414,8 @@ def C14(ctx):
     cases = ctx.export('FamilyN(p)', extends='WireNames', pre_sample=350 if ctx.quick else 5000)
     pred = names_model(ctx)
     out = ctx.run(cases, nontrivial=lambda c: c['key'] != 'N/', runtime=True, switches=ALL, collect_gen=True)
-    ctx.run(ctx.export('FamilyX(p, {"foreign-struct-sole-reference", "same-name-packages", "unnamed-params-same-type-name"})'), nontrivial=lambda c: True, runtime=True, switches=ALL)
+    ctx.run(ctx.export('FamilyX(p, {"foreign-struct-sole-reference", "same-name-packages", "unnamed-params-same-type-name"})')
+            + ctx.export('FamilyNTwoB(p)', extends='WireNames'), nontrivial=lambda c: True, runtime=True, switches=ALL)
     names_conformance(ctx, pred, out)
     ctx.run(ctx.export('FamilyX(p, {"two-unnamed-values", "two-files-ok", "multi-name-var-sets"})'), runtime=True, switches=ALL)
 
